@@ -1,12 +1,13 @@
-\* quick: 2 nodes, 3 entries, batch size 2, endpoint down/up and leadership changes unlimited, no restart
+\* quick: 2 nodes, 2 entries, batch size 2, leadership signals (queued, <=2 pending per node) and endpoint outages unlimited, no restart
 SPECIFICATION Spec
 CONSTANTS
   Node = {n1, n2}
-  MaxIdx = 3
+  MaxIdx = 2
   Multi = {2}
   BatchSz = 2
   InCap = 0
   AsyncHWM = FALSE
+  SigCap = 2
   MaxFlips = 99
   MaxLeaders = 1
   MaxRestarts = 0
@@ -20,7 +21,8 @@ CONSTANTS
   HWMAfterSendOK = TRUE
   PruneToHWMOnly = TRUE
   RewindCursor = TRUE
+  ParkedKeptUntilSent = TRUE
   RestartHWMBelowLowest = TRUE
   DropReapplied = TRUE
 SYMMETRY Sym
-INVARIANTS TypeOK Labelled NoSkip TenureOrder TakenStored KeysBounded
+INVARIANTS TypeOK Labelled NoSkip TenureOrder TakenStored KeysBounded LoopShape
